@@ -376,3 +376,24 @@ def check_scalar_zero_guard(ctx, rule, P):
             pass
         else:
             ctx.ob(rule + ".anchor", "%s/is_zero(input)" % fk, False, "neither a from_repr call nor a delegation to the sibling importer found in `%s` (anchor changed shape)" % fk, where=where(fn))
+
+
+def check_scalar_importer_rejects(ctx, rule, P):
+    """Round trip of scalars through the byte importers: an importer may refuse its input only through (a) the
+    all-zero test and (b) the field's own canonical decoder (from_repr refuses values >= r).  Every other constant
+    "none" result is a rejection of inputs that to_repr can produce."""
+    n = 0
+    for fk in SCALAR_IMPORTERS:
+        fn = ctx.need_fn(rule, fk, P)
+        if fn is None:
+            continue
+        ev = evaluate(fn)
+        for bb, val, flag in ctoption_sites(P, fn):
+            if G.formula(flag, P) != G.FALSE:
+                continue
+            n += 1
+            lits = G.path_literals(ev, bb, P)
+            ok = has_literal(lits, "is_zero", ("param", "input"), True)
+            conds = sorted(G.show_f(a, 3) + ("" if p else " [false]") for a, p in lits)
+            ctx.ob(rule, "%s/none@%s" % (fk, "zero" if ok else "other"), ok, "%s returns a constant `none` %s (path condition: %s)" % (fk, "only for the all-zero string" if ok else "under a condition that is not implied by the all-zero test: some non-zero canonical scalars are refused", conds[:3]), where=where(fn, bb))
+    return n
